@@ -530,11 +530,15 @@ Section Inside.
     Forall wfp l -> Forall variant_inside vs ->
     enum_from_list sugg sim interp_with interp_fn vs (vconvs vs) l = Err e -> okw (in_items l) None e.
   Proof.
-    intros W V. unfold enum_from_list. destruct l as [|n [|n2 r]]; [intros [= <-]; apply unsp_okw, unsp_new| |destruct n; intros [= <-]; apply unsp_okw, unsp_new].
-    destruct (is_meta n) eqn:M; [|destruct n; try discriminate; intros [= <-]; apply unsp_okw, unsp_new].
-    assert (Wn : wfp n) by now inversion W.
+    intros W V. unfold enum_from_list. destruct l as [|n [|n2 r]]; [intros [= <-]; apply unsp_okw, unsp_new| |].
+    2:{ assert (G2 : forall x, okw (in_span (i_span (ninfo n2))) None x -> okw (in_items (n :: n2 :: r)) None x).
+        { intros x. apply okw_mono. intros s Hs. exists n2. split; [right; now left|exact Hs]. }
+        destruct n; intros [= <-]; apply G2, oks_okw, oks_with_span; try apply span_inside_refl; apply unsp_okw, unsp_new. }
     assert (G : forall x, okw (in_span (i_span (ninfo n))) None x -> okw (in_items [n]) None x).
     { intros x. apply okw_mono. intros s Hs. exists n. split; [now left|exact Hs]. }
+    destruct (is_meta n) eqn:M;
+      [|destruct n; try discriminate; intros [= <-]; apply G, oks_okw, oks_with_span; try apply span_inside_refl; apply unsp_okw, unsp_new].
+    assert (Wn : wfp n) by now inversion W.
     destruct n as [i li| i p | i p ti items | i p ti es msg | i p ex]; [discriminate|..];
       (match goal with |- context [enum_arm ?a ?b ?c ?d ?vs0 ?cv ?nm ?it] =>
          destruct (enum_arm a b c d vs0 cv nm it) as [r|] eqn:EA;
